@@ -567,9 +567,7 @@ def growth_scenarios(R, C, tier):
         if R <= 2:
             sc.append(("col-999", [(R - 1, 999)]))
         if (R, C) == (1, 1):
-            # 16 tiles. Row growth is quadratic too since MergeCells.shift walks one entry per cell ever looked
-            # up on every add_row (measured: 8,192 rows 4.4 s, 65,536 rows 380 s), so deeper growth is not used.
-            sc.append(("row-4096", [(4096, 0)]))
+            sc.append(("row-65536", [(65536, 0)]))  # 257 tiles, row index beyond 16 bits
     return sc
 
 
@@ -925,11 +923,11 @@ def main():
     run.floor("every (shape, scenario, position, value) triple of the plan was executed", c["document_cells_written_and_compared"] >= len(triples) > 1000)
     if tier == "thorough":
         run.floor("growth to column 999 executed", c["documents_grown_to_column_999"] >= len(alpha))
-    run.assume("floats outside the enumerated grids (about 10^15 fifteen-digit values), texts other than the representatives, rows beyond 4096, "
+    run.assume("floats outside the enumerated grids (about 10^15 fifteen-digit values), texts other than the representatives, rows beyond 65536, "
                "tz-aware datetimes, documents with several tables and cells carrying styles/formats are not enumerated")
     if tier != "thorough":
         run.assume("quick tier: ints to 10^5, prices to 9,999.99, decimal exponents in steps of 7, one calendar day (chosen by VERIF_SEED), durations every 7th day, "
-                   "no 513x3 shape, no growth to column 999 / row 4096, pair family over a 21-value sub-alphabet")
+                   "no 513x3 shape, no growth to column 999 / row 65536, pair family over a 21-value sub-alphabet")
     cov = {
         "distinct_nontrivial": c["record_distinct_values"] + len(triples),
         "rule": "record layer: values counted once per (Python type, value) - members of a group that also belong to another group (e.g. 1.23 as "
